@@ -255,7 +255,7 @@ def run(ctx):
             hist = dict(table0=t0, steps=steps)
             ctx.count('circuits-queried-after-a-history')
         check_net(ctx, root, ncols, rs, cap, f'net{k}', hist)
-        if ctx.n_new() >= 3:
+        if ctx.n_new(with_input_only=True) >= 3:
             break
     ctx.notes.append('total mass is not enumerated by the model: it is evalNet with nothing observed, equal to the enumerated '
                      'sum by Circ.marg / C01_normalised; the implementation side is enumerated when the discrete domain is small')
